@@ -22,6 +22,7 @@ type Row struct {
 	Tmpl   string    `json:"tmpl"` // template text, or CALL:<callee> / VAR:<name> for non-literal returns
 	Args   []string  `json:"args,omitempty"`
 	Loop   []string  `json:"loop,omitempty"` // enclosing loops (canonical range expressions)
+	LoopIx []string  `json:"loop_ix,omitempty"` // name of the index variable of each enclosing loop ("" if none)
 	Pos    token.Pos `json:"-"`
 	PosStr string    `json:"pos"`
 	Seq    int       `json:"seq"` // order of appearance in the function
@@ -43,6 +44,19 @@ type Extractor struct {
 	locals map[types.Object]bool
 	// `v, ok := E.(T)`: ok object -> "type(E)∈{T}"
 	okGuards map[types.Object]string
+	// explaining locals: a variable defined exactly once (`x := E`, never reassigned, address never
+	// taken) by a side-effect-free expression is rendered as E, so that introducing or removing
+	// such a local does not change the table
+	bind     map[types.Object]ast.Expr
+	binding  map[types.Object]bool // cycle guard
+	// index variables of `for i := 0; i < len(X); i++` loops: object -> canonical X
+	indexOf map[types.Object]string
+	// Decl resolves a function of the module to its declaration (same type info), for helpers that
+	// are expanded in place; nil = no expansion
+	Decl func(f *types.Func) *ast.FuncDecl
+	// NoInline: functions that must stay symbolic (the recursive family of the table)
+	NoInline map[string]bool
+	inlined  map[*types.Func]bool
 }
 
 var DefaultEmitters = map[string]int{
@@ -134,8 +148,17 @@ func (x *Extractor) Canon(e ast.Expr) string {
 		if tv, ok := x.Info.Types[v]; ok && tv.Value != nil {
 			return constText(obj, tv.Value.ExactString())
 		}
+		if rhs, ok := x.bind[obj]; ok && !x.binding[obj] {
+			x.binding[obj] = true
+			r := x.Canon(rhs)
+			x.binding[obj] = false
+			return r
+		}
 		if vr, ok := obj.(*types.Var); ok && !vr.IsField() {
 			t := vr.Type()
+			if _, isIx := x.indexOf[obj]; isIx {
+				return v.Name // index of a `for i := 0; i < len(X); i++` loop: like a range key
+			}
 			if x.locals[obj] && trackedLocal(t) {
 				return "$" + v.Name
 			}
@@ -169,6 +192,13 @@ func (x *Extractor) Canon(e ast.Expr) string {
 	case *ast.BinaryExpr:
 		return x.Canon(v.X) + " " + v.Op.String() + " " + x.Canon(v.Y)
 	case *ast.IndexExpr:
+		if id, ok := ast.Unparen(v.Index).(*ast.Ident); ok {
+			if over, ok := x.indexOf[x.Info.Uses[id]]; ok && over == x.Canon(v.X) {
+				if n := dslNamed(x.Info.TypeOf(v)); n != "" {
+					return n // same name a `for _, e := range X` value variable gets
+				}
+			}
+		}
 		return x.Canon(v.X) + "[" + x.Canon(v.Index) + "]"
 	case *ast.CallExpr:
 		var as []string
@@ -189,6 +219,20 @@ func (x *Extractor) Canon(e ast.Expr) string {
 		return types.ExprString(v.Type) + "{..}"
 	}
 	return types.ExprString(e)
+}
+
+func dslNamed(t types.Type) string {
+	for t != nil {
+		if p, ok := t.(*types.Pointer); ok {
+			t = p.Elem()
+			continue
+		}
+		break
+	}
+	if n, ok := t.(*types.Named); ok && n.Obj().Pkg() != nil && strings.HasSuffix(n.Obj().Pkg().Path(), "/pkg/dsl") {
+		return n.Obj().Name()
+	}
+	return ""
 }
 
 // trackedLocal: locals whose value is followed through `let` rows: interface-typed
@@ -230,6 +274,15 @@ func identOf(e ast.Expr) *ast.Ident {
 func (x *Extractor) condGuards(c ast.Expr, taken bool) []guard {
 	c = ast.Unparen(c)
 	switch v := c.(type) {
+	case *ast.Ident:
+		// a boolean explaining local stands for its defining condition
+		obj := x.Info.Uses[v]
+		if rhs, ok := x.bind[obj]; ok && !x.binding[obj] {
+			x.binding[obj] = true
+			gs := x.condGuards(rhs, taken)
+			x.binding[obj] = false
+			return gs
+		}
 	case *ast.UnaryExpr:
 		if v.Op == token.NOT {
 			return x.condGuards(v.X, !taken)
@@ -317,9 +370,10 @@ func terminates(list []ast.Stmt) bool {
 }
 
 type ctx struct {
-	gs    []guard
-	in    string
-	loops []string
+	gs     []guard
+	in     string
+	loops  []string
+	loopIx []string
 }
 
 func (x *Extractor) add(c ctx, kind, tmpl string, args []string, pos token.Pos) {
@@ -328,7 +382,7 @@ func (x *Extractor) add(c ctx, kind, tmpl string, args []string, pos token.Pos) 
 		gs = append(gs, g.String())
 	}
 	x.seq++
-	x.rows = append(x.rows, Row{Func: x.fn, In: c.in, Guards: gs, Kind: kind, Tmpl: tmpl, Args: args, Loop: append([]string(nil), c.loops...),
+	x.rows = append(x.rows, Row{Func: x.fn, In: c.in, Guards: gs, Kind: kind, Tmpl: tmpl, Args: args, Loop: append([]string(nil), c.loops...), LoopIx: append([]string(nil), c.loopIx...),
 		Pos: pos, PosStr: x.Fset.Position(pos).String(), Seq: x.seq})
 }
 
@@ -430,6 +484,17 @@ func (x *Extractor) walkExpr(e ast.Node, c ctx) {
 				}
 				return false
 			}
+			// call of a declared function of the same package: recorded with its guards and loops so
+			// that a rule can expand the helper in the context of the call site
+			if x.Decl != nil {
+				if f := x.callee(v); f != nil && x.Decl(f) != nil {
+					var as []string
+					for _, a := range v.Args {
+						as = append(as, x.Canon(a))
+					}
+					x.add(c, "call", f.Name(), as, v.Pos())
+				}
+			}
 			// call of a local closure: its rows were recorded where it is defined
 		}
 		return true
@@ -526,14 +591,48 @@ func (x *Extractor) walkStmt(s ast.Stmt, c ctx) ctx {
 			}
 			all = append(all, ts)
 		}
+		if st.Tag == nil {
+			// a tagless switch is an if / else-if chain: clause k is reached when its condition
+			// holds and those of the clauses in front of it do not; default when none holds
+			single := true
+			for _, cl := range st.Body.List {
+				if cc := cl.(*ast.CaseClause); cc.List != nil && len(cc.List) != 1 {
+					single = false
+				}
+			}
+			if single {
+				var dflt *ast.CaseClause
+				prev := c.gs
+				for _, cl := range st.Body.List {
+					cc := cl.(*ast.CaseClause)
+					if cc.List == nil {
+						dflt = cc
+						continue
+					}
+					cc2 := c
+					cc2.gs = with(prev, x.condGuards(cc.List[0], true)...)
+					x.walkList(cc.Body, cc2)
+					prev = with(prev, x.condGuards(cc.List[0], false)...)
+				}
+				if dflt != nil {
+					cc2 := c
+					cc2.gs = prev
+					x.walkList(dflt.Body, cc2)
+				}
+				allTerminate := dflt != nil
+				for _, cl := range st.Body.List {
+					if !terminates(cl.(*ast.CaseClause).Body) {
+						allTerminate = false
+					}
+				}
+				_ = allTerminate
+				return c
+			}
+		}
 		for _, cl := range st.Body.List {
 			cc := cl.(*ast.CaseClause)
 			cc2 := c
-			if st.Tag == nil && cc.List != nil && len(cc.List) == 1 {
-				cc2.gs = with(c.gs, x.condGuards(cc.List[0], true)...)
-			} else {
-				cc2.gs = with(c.gs, x.caseLabel(subj, cc, all))
-			}
+			cc2.gs = with(c.gs, x.caseLabel(subj, cc, all))
 			x.walkList(cc.Body, cc2)
 		}
 	case *ast.ReturnStmt:
@@ -615,6 +714,11 @@ func (x *Extractor) walkStmt(s ast.Stmt, c ctx) ctx {
 	case *ast.RangeStmt:
 		cc := c
 		cc.loops = append(append([]string(nil), c.loops...), "range "+x.Canon(st.X))
+		ix := ""
+		if id, ok := st.Key.(*ast.Ident); ok && id.Name != "_" {
+			ix = id.Name
+		}
+		cc.loopIx = append(append([]string(nil), c.loopIx...), ix)
 		x.walkList(st.Body.List, cc)
 	case *ast.ForStmt:
 		cc := c
@@ -622,6 +726,13 @@ func (x *Extractor) walkStmt(s ast.Stmt, c ctx) ctx {
 		if st.Cond != nil {
 			lbl = "for " + x.Canon(st.Cond)
 		}
+		ix := ""
+		if obj, over := x.indexLoop(st); obj != nil {
+			x.indexOf[obj] = over
+			lbl = "range " + over // same label a `for i := range X` gets
+			ix = obj.Name()
+		}
+		cc.loopIx = append(append([]string(nil), c.loopIx...), ix)
 		cc.loops = append(append([]string(nil), c.loops...), lbl)
 		x.walkList(st.Body.List, cc)
 	case *ast.DeclStmt, *ast.IncDecStmt, *ast.BranchStmt, *ast.EmptyStmt:
@@ -629,6 +740,83 @@ func (x *Extractor) walkStmt(s ast.Stmt, c ctx) ctx {
 		return x.walkStmt(st.Stmt, c)
 	}
 	return c
+}
+
+// indexLoop recognises `for i := 0; i < len(X); i++` (any of i++ / i += 1 / i = i + 1).
+func (x *Extractor) indexLoop(st *ast.ForStmt) (types.Object, string) {
+	as, ok := st.Init.(*ast.AssignStmt)
+	if !ok || as.Tok != token.DEFINE || len(as.Lhs) != 1 || len(as.Rhs) != 1 {
+		return nil, ""
+	}
+	id, ok := as.Lhs[0].(*ast.Ident)
+	if !ok {
+		return nil, ""
+	}
+	if tv, ok := x.Info.Types[as.Rhs[0]]; !ok || tv.Value == nil || tv.Value.ExactString() != "0" {
+		return nil, ""
+	}
+	obj := x.Info.Defs[id]
+	be, ok := ast.Unparen(st.Cond).(*ast.BinaryExpr)
+	if !ok {
+		return nil, ""
+	}
+	var lenArg ast.Expr
+	isI := func(e ast.Expr) bool { i, ok := ast.Unparen(e).(*ast.Ident); return ok && x.Info.Uses[i] == obj }
+	lenOf := func(e ast.Expr) ast.Expr {
+		if id, ok := ast.Unparen(e).(*ast.Ident); ok {
+			if rhs, ok := x.bind[x.Info.Uses[id]]; ok {
+				e = rhs
+			}
+		}
+		if ce, ok := ast.Unparen(e).(*ast.CallExpr); ok && len(ce.Args) == 1 {
+			if f, ok := ast.Unparen(ce.Fun).(*ast.Ident); ok && f.Name == "len" {
+				return ce.Args[0]
+			}
+		}
+		return nil
+	}
+	switch {
+	case be.Op == token.LSS && isI(be.X):
+		lenArg = lenOf(be.Y)
+	case be.Op == token.GTR && isI(be.Y):
+		lenArg = lenOf(be.X)
+	}
+	if lenArg == nil {
+		return nil, ""
+	}
+	switch p := st.Post.(type) {
+	case *ast.IncDecStmt:
+		if p.Tok != token.INC || !isI(p.X) {
+			return nil, ""
+		}
+	case *ast.AssignStmt:
+		if len(p.Lhs) != 1 || !isI(p.Lhs[0]) {
+			return nil, ""
+		}
+	default:
+		return nil, ""
+	}
+	return obj, x.Canon(lenArg)
+}
+
+// pureExpr: no calls with possible effects on the tables (function literals, appends), so that
+// the expression can stand for the variable it defines.
+func pureExpr(e ast.Expr) bool {
+	ok := true
+	ast.Inspect(e, func(n ast.Node) bool {
+		switch v := n.(type) {
+		case *ast.FuncLit:
+			ok = false
+		case *ast.CallExpr:
+			if id, isId := ast.Unparen(v.Fun).(*ast.Ident); isId && (id.Name == "append" || id.Name == "make" || id.Name == "new") {
+				ok = false
+			}
+		case *ast.CompositeLit:
+			ok = false
+		}
+		return ok
+	})
+	return ok
 }
 
 // Extract returns the rows of one function declaration.
@@ -677,8 +865,103 @@ func (x *Extractor) Extract(name string, d *ast.FuncDecl) []Row {
 	if x.Emitters == nil {
 		x.Emitters = DefaultEmitters
 	}
+	x.computeBindings(d.Body)
 	x.walkList(d.Body.List, ctx{})
 	return x.rows
+}
+
+// computeBindings finds the explaining locals of a body (see Extractor.bind).
+func (x *Extractor) computeBindings(body ast.Node) {
+	if x.bind == nil {
+		x.bind = map[types.Object]ast.Expr{}
+		x.binding = map[types.Object]bool{}
+		x.indexOf = map[types.Object]string{}
+	}
+	defs := map[types.Object]ast.Expr{}
+	writes := map[types.Object]int{}
+	ast.Inspect(body, func(n ast.Node) bool {
+		switch s := n.(type) {
+		case *ast.AssignStmt:
+			for i, l := range s.Lhs {
+				id, ok := l.(*ast.Ident)
+				if !ok {
+					continue
+				}
+				o := x.Info.Defs[id]
+				if o == nil {
+					o = x.Info.Uses[id]
+				}
+				if o == nil {
+					continue
+				}
+				writes[o]++
+				if s.Tok == token.DEFINE && x.Info.Defs[id] != nil && len(s.Lhs) == len(s.Rhs) {
+					defs[o] = s.Rhs[i]
+				}
+			}
+		case *ast.IncDecStmt:
+			if id, ok := s.X.(*ast.Ident); ok {
+				writes[x.Info.Uses[id]] += 2
+			}
+		case *ast.UnaryExpr:
+			if s.Op == token.AND {
+				if id, ok := s.X.(*ast.Ident); ok {
+					writes[x.Info.Uses[id]] += 2
+				}
+			}
+		case *ast.RangeStmt:
+			for _, l := range []ast.Expr{s.Key, s.Value} {
+				if id, ok := l.(*ast.Ident); ok {
+					if o := x.Info.Defs[id]; o != nil {
+						writes[o] += 2
+					}
+				}
+			}
+		case *ast.ForStmt:
+			if as, ok := s.Init.(*ast.AssignStmt); ok {
+				for _, l := range as.Lhs {
+					if id, ok := l.(*ast.Ident); ok {
+						if o := x.Info.Defs[id]; o != nil {
+							writes[o] += 2
+						}
+					}
+				}
+			}
+		}
+		return true
+	})
+	for o, rhs := range defs {
+		if writes[o] != 1 || !pureExpr(rhs) {
+			continue
+		}
+		t := o.Type()
+		// strings keep their assign rows (template structure) unless they are plain calls or paths;
+		// formatted strings and concatenations are never substituted
+		switch r := ast.Unparen(rhs).(type) {
+		case *ast.CallExpr:
+			if f := x.callee(r); f != nil && fullName(f) == "fmt.Sprintf" {
+				continue
+			}
+			if _, isLit := ast.Unparen(r.Fun).(*ast.FuncLit); isLit {
+				continue
+			}
+			if f := x.callee(r); f != nil && f.Name() == "Join" {
+				continue
+			}
+		case *ast.BinaryExpr:
+			if b, ok := t.Underlying().(*types.Basic); ok && b.Info()&types.IsString != 0 {
+				continue
+			}
+		case *ast.BasicLit:
+			continue
+		case *ast.TypeAssertExpr:
+			continue
+		}
+		if tv, ok := x.Info.Types[rhs]; ok && tv.Value != nil {
+			continue // constants are rendered by value already
+		}
+		x.bind[o] = rhs
+	}
 }
 
 func (r Row) String() string {
